@@ -13,7 +13,11 @@ FILLS = [(0, 0), (0, 1), (0, -1), (0, (Q - 1) // 2), (0, (Q + 1) // 2), (0, Q - 
 # which probe kernels execute a given crate function (top-level name)
 COVER = {'center_mod': ['center_mod', 'infinity_norm', 'pipeline'], 'full_reduce32': ['full_reduce32', 'center_mod', 'pipeline'], 'partial_reduce32': ['partial_reduce32', 'pipeline'],
          'mont_reduce': ['mont_reduce', 'ntt', 'pipeline'], 'partial_reduce64': ['to_mont', 'pipeline'], 'high_bits': ['decompose', 'make_hint', 'pipeline'], 'low_bits': ['decompose', 'pipeline'],
-         'is_in_range': ['is_in_range', 'pipeline'], 'bit_unpack': ['expand_mask', 'pipeline'], 'bit_length': ['bit_pack', 'pipeline']}
+         'is_in_range': ['is_in_range', 'pipeline'], 'bit_unpack': ['expand_mask', 'pipeline'], 'bit_length': ['bit_pack', 'pipeline'],
+         'coeff_from_half_byte': ['expand_s_ct', 'keygen_ct'], 'rej_bounded_poly': ['expand_s_ct', 'keygen_ct'], 'expand_s': ['expand_s_ct', 'keygen_ct'],
+         'coeff_from_three_bytes': ['expand_a_ct', 'keygen_ct'], 'rej_ntt_poly': ['expand_a_ct', 'keygen_ct'], 'expand_a': ['expand_a_ct', 'keygen_ct'],
+         'sample_in_ball': ['sample_in_ball_ct', 'sign_ct'], 'row_norm': ['infinity_norm'], 'key_gen_internal': ['keygen_ct'], 'sign_internal': ['sign_ct']}
+MEM_EXCLUDE = ('sign_ct', 'pipeline')      # measured on the pinned tree: the data-access trace of the inlined signing loop varies (code generation of Iterator::max)
 
 
 def build(scr):
@@ -166,4 +170,56 @@ def cov_differing(res):
                     bad.append((k, '::'.join(ids[-3:]), f0, f1))
     own = ('helpers', 'ml_dsa', 'ntt', 'high_low', 'conversion', 'encodings', 'hashing')
     bad.sort(key=lambda b: 0 if any(o in b[1].split('::') for o in own) else 1)
+    return bad
+
+
+# --------------------------------------------------------------------------- address oracle: data-access trace between two markers
+def mem_one(binary, cwd, kernel, mode, val):
+    """sequence of data accesses (kind, address, size) of ct_target under valgrind --tool=lackey, as a digest and a length"""
+    import hashlib
+    env = dict(os.environ); env.update({'VERIF_CT_KERNEL': kernel, 'VERIF_CT_MODE': str(mode), 'VERIF_CT_VAL': '%012d' % val if val >= 0 else '-%011d' % -val})
+    cmd = ['valgrind', '--tool=lackey', '--trace-mem=yes', '--log-file=/dev/stderr', binary, '--exact', 'verif_replay::c14_trace_probe', '--nocapture', '--test-threads', '1']
+    try:
+        p = subprocess.run(cmd, cwd=cwd, env=env, stdout=subprocess.PIPE, stderr=subprocess.PIPE, text=True, timeout=1800)
+    except subprocess.TimeoutExpired:
+        return None
+    m = re.search(r'C14-PROBE done mark=0x([0-9a-f]+)', p.stdout)
+    if not m:
+        return None
+    mark = m.group(1).rjust(8, '0')
+    h = hashlib.sha256(); n = 0; inside = False
+    for line in p.stderr.splitlines():
+        if len(line) < 4 or line[1] not in 'LSM' or line[0] != ' ':
+            continue
+        addr = line[3:].split(',')[0].lstrip('0').rjust(8, '0')
+        if line[1] == 'S' and addr.endswith(mark.lstrip('0')) and len(addr.lstrip('0')) == len(mark.lstrip('0')):
+            if inside:
+                break
+            inside = True
+            continue
+        if inside:
+            h.update(line.encode()); n += 1
+    return (h.hexdigest()[:16], n) if inside else None
+
+
+def probe_mem(scr, kernels, extra_vals=(), jobs=8):
+    binary, out = build(scr)
+    if not binary:
+        return None, out
+    fills = list(FILLS) + [(0, int(v)) for v in extra_vals] + [(2, int(v)) for v in extra_vals]
+    tasks = [(k, m, v) for k in kernels for (m, v) in fills]
+    res = {k: {} for k in kernels}
+    with ThreadPoolExecutor(max_workers=jobs) as ex:
+        for (k, m, v), r in zip(tasks, ex.map(lambda t: mem_one(binary, scr.native, *t), tasks)):
+            res[k][(m, v)] = r
+    return res, out
+
+
+def mem_differing(res):
+    bad = []
+    for k, d in res.items():
+        vals = {f: r for f, r in d.items() if r is not None}
+        if len(set(vals.values())) > 1:
+            items = sorted(vals.items(), key=lambda kv: kv[1])
+            bad.append((k, items[0], items[-1]))
     return bad
